@@ -54,21 +54,18 @@ def sidesAfterSuccess (s : Setup) : String × String :=
    else s.mdata0,
    if s.op = "put_object" then "new" else s.info0)
 
-/-- the one drop position at which the temporary file exists but no `FileWriter` yet: the first suspension that can
-    leave a file at all — body never polled (put_object, upload_part), resp. the suspension of `File::create` in
-    complete_multipart_upload (after 2 suspensions for the upload record, 2 more if the upload carries metadata) -/
-def atCreate (s : Setup) (o : Obs) : Bool :=
-  if s.op = "complete_multipart_upload" then o.phase = "P0" && o.pends = (if s.hasMeta then 5 else 3)
-  else if s.op = "upload_part" then o.phase = "B0" && o.pends = 2   -- 1: reading the upload record
-  else o.phase = "B0" && o.pends = 1
+/-- the drop positions before the writer has been handed anything: the body stream was never polled (put_object,
+    upload_part), no part has been consumed (complete_multipart_upload). A temporary file that exists here exists
+    without its guard. (The number of `Pending`s is NOT used: a blocking operation that finishes before its first
+    poll produces none, so positions cannot be counted reliably.) -/
+def atCreate (_s : Setup) (o : Obs) : Bool := o.phase = "B0" || o.phase = "P0"
 
 /-- where the fault was; `fine` distinguishes the drop positions before the rename -/
 def whereTag (s : Setup) (o : Obs) (fine : Bool) : String :=
   if s.fault.startsWith "drop" then
     if o.dest = "new" then "drop-after-rename"
     else if !fine then "drop-before-rename"
-    else if atCreate s o then "drop-at-create"
-    else if o.phase = "B0" then "drop-before-create"
+    else if atCreate s o then (if o.tmps ≠ 0 then "drop-at-create" else "drop-before-adopt")
     else if o.phase = "B1" then "drop-in-body"
     else if s.op = "complete_multipart_upload" then s!"drop-after-{o.phase}"
     else "drop-after-body"
